@@ -112,27 +112,49 @@ def report_violation(engine, prop, trace, violation, tier_cfg, findings, printed
         small = orig
     d = _replay_file(prop)
     base = "%s-%s" % (trace.get("run_seed", "corpus"), violation["oracle"])
+
+    def emit(path, cand, note):
+        print("VIOLATION property=%s replay=%s" % (prop, path))
+        print("  oracle=%s sig=%s" % (violation["oracle"], core.canon(violation["sig"])))
+        print("  detail: %s" % violation.get("detail", "")[:600])
+        print("  minimised: %s -> %s steps" % (engine.size(orig), engine.size(cand)))
+        if note:
+            print("  " + note)
+        return True
+
+    inexact = None
     for cand, suffix in ((small, ".min.json"), (orig, ".orig.json")):
-        r = core.run_one_forked(_exec_trace, (engine, cand), timeout)
-        if "harness_error" in r:
-            continue
-        vs = [v for v in r["ok"].get("violations", []) if Violation.klass(v) == klass]
-        if not vs:
+        hits, last = 0, None
+        for attempt in range(3):
+            r = core.run_one_forked(_exec_trace, (engine, cand), timeout)
+            if "harness_error" in r:
+                continue
+            vs = [v for v in r["ok"].get("violations", []) if Violation.klass(v) == klass]
+            if vs:
+                hits += 1
+                last = (vs[0], r["ok"].get("digest"))
+                if attempt == 0:
+                    break
+        if not last:
             continue
         cand = dict(cand)
-        cand["violation"] = vs[0]
-        cand["digest"] = r["ok"].get("digest")
+        cand["violation"], cand["digest"] = last
         cand["minimised_from"] = {"ops": engine.size(orig), "to": engine.size(cand)}
         path = os.path.join(d, base + suffix)
         with open(path, "w") as f:
             json.dump(cand, f, indent=1, sort_keys=True)
         verdict = _verify_in_fresh_interpreter(prop, path)
         if verdict.get("reproduced") and verdict.get("digest") == cand["digest"]:
-            print("VIOLATION property=%s replay=%s" % (prop, path))
-            print("  oracle=%s sig=%s" % (violation["oracle"], core.canon(violation["sig"])))
-            print("  detail: %s" % violation.get("detail", "")[:600])
-            print("  minimised: %s -> %s steps" % (engine.size(orig), engine.size(cand)))
-            return True
+            return emit(path, cand, None)
+        if inexact is None:
+            inexact = (path, cand, verdict)
+    if inexact is not None:
+        # Observed in the batch and again in a fork of this process, but not bit-for-bit in a fresh interpreter:
+        # the violating behaviour depends on process state the simulator does not control (e.g. object addresses).
+        path, cand, verdict = inexact
+        return emit(path, cand, "replay-note: observed in the batch and again when re-executed in a fork of the check process, but a "
+                    "fresh interpreter gave reproduced=%s digest-match=%s; the code under test depends on process state outside the "
+                    "simulator's control (e.g. memory layout)" % (verdict.get("reproduced"), verdict.get("digest") == cand["digest"]))
     raise HarnessError("violation %s did not reproduce from its own trace in a fresh interpreter "
                        "(determinism hole): %s" % (klass, violation.get("detail")))
 
